@@ -47,6 +47,7 @@ Step ==
         /\ Chk(e.st = "ok", R("Converts", e.st))
         /\ Chk(e.st # "ok" \/ (e.t = x.t /\ e.got = Enc(x)), R("ValueByType", IF e.t # x.t THEN "wrong-type-code" ELSE "wrong-value"))
         /\ Chk(e.st # "ok" \/ e.src = "form" \/ e.plain, R("UnannotatedFromBody", "differs"))
+        /\ Chk(e.st # "ok" \/ e.src # "body" \/ e.got2 = Enc(x), R("SecondFieldSameMember", "wrong-value"))
      ELSE IF e.ev = "HRV" THEN
         LET R(lbl, got) == [tag |-> "MM", i |-> l, ev |-> "HRV", api |-> e.ty, label |-> lbl, exp |-> "", got |-> got, detail |-> e.dst] IN
         /\ Chk(e.st = "ok", R("Delivers", e.st))
